@@ -112,3 +112,22 @@ Lemma discr_reduce_array_weighting_refuted :
 Proof.
   split; [eexists; eexists; split; vm_compute; reflexivity | split; vm_compute; reflexivity].
 Qed.
+
+(* non-vacuity of tensor_out_with_dtype_keyword: np.add(x, arr, out=<float32 tensor>, dtype='float64') *)
+Definition st_dk : @store Q :=
+  [mkArr DF64 [3%nat] [1; 2; 3]; mkArr DF64 [3%nat] [1; 1; 1]; mkArr DF32 [3%nat] [7; 7; 7]].
+Definition rn3f : tspace := ts_default [3%nat] DF32.
+Definition kw64 : kwargs := mkKw AxAbsent false (Some DF64) [].
+Example out_dtype_kw_premises_hold :
+  let r := mkArr DF64 [3%nat] [2; 3; 4] in
+  (forall odt, NPadd (mkReq MCall kw64 (map (raw_in st_dk) [RopBuf 0; RopBuf 1])
+                            [Some (odt, a_shape (rd st_dk 2))]) = Ok [r])
+  /\ a_dt r = DF64 /\ shape_eqb (a_shape r) (a_shape (rd st_dk 2)) = true
+  /\ can_cast DF64 (a_dt (rd st_dk 2)) = true /\ dt_eqb DF64 (a_dt (rd st_dk 2)) = false
+  /\ (forall v, castQ DF64 DF64 v = v).
+Proof. cbn. repeat split; intros; reflexivity. Qed.
+Example out_dtype_kw_runs :
+  exists st', tens_ufunc castQ as_found NPadd st_dk rn3 1 MCall [OpTens rn3 0; OpArr 1] kw64 [Some (OpTens rn3f 2)]
+              = Ok ([OpTens rn3f 2], st')
+    /\ a_data (rd st' 2) = [2; 3; 4] /\ a_dt (rd st' 2) = DF32.
+Proof. eexists; split; [vm_compute; reflexivity | split; vm_compute; reflexivity]. Qed.
